@@ -65,7 +65,17 @@ def handle_reload_exception(e, suggest_rerun=False):
     if suggest_rerun and isinstance(e, EnvVersionError):
         msg += '\n  please re-run bfg9000 manually'
     logger.error(msg, exc_info=True)
-    return e.code if isinstance(e, build.ScriptExitError) else 1
+    return exit_code(e)
+
+
+def exit_code(e):
+    if isinstance(e, build.ScriptExitError):
+        # The OS only keeps the low 8 bits of an exit status; don't let a
+        # script's failure (e.g. `exit(256)`) be reported as success.
+        if isinstance(e.code, int) and e.code % 256 == 0:
+            return 1
+        return e.code
+    return 1
 
 
 def environment_from_args(args):
@@ -247,7 +257,7 @@ def configure(parser, subparser, args, extra):
         pass
     except Exception as e:
         logger.exception(e)
-        return e.code if isinstance(e, build.ScriptExitError) else 1
+        return exit_code(e)
 
 
 def regenerate(parser, subparser, args, extra):
